@@ -28,6 +28,15 @@ func init() {
 }
 
 func runC12(w *World, r *Report) {
+	// ---- visits-all: every field, entry and element is encoded / decoded
+	r.Rule("C12.visits-all", "the loops of the encoder and the decoder over struct fields, map entries and slice elements are left only when exhausted or with an error", 6)
+	ruleLoopsTotal(w, r, "C12.visits-all", []*ssa.Function{
+		w.Fn("internal/serialization", "internalMarshal"), w.Fn("internal/serialization", "internalUnmarshal"),
+		w.Fn("internal/serialization", "resolvePointerNum"), w.Fn("internal/serialization", "createValueFromType"),
+	}, map[string]string{
+		"internal/serialization.internalMarshal: loop while (reflect.Type).Kind() == 22": "pointer-peeling loop `for rt.Kind() == reflect.Ptr`: it returns (nil marker) when it meets a nil pointer — nothing is left to encode below a nil pointer",
+	}, "part of the value is silently missing after a round trip")
+
 	im := w.Fn("internal/serialization", "internalMarshal")
 	iu := w.Fn("internal/serialization", "internalUnmarshal")
 	isT := w.Named("internal/serialization", "internalStruct")
